@@ -6,7 +6,9 @@ CHECK = {'level': 'exploration',
          '= TimeReceived 2h old against a 1h CachePendingSeqMaxWait). perms: every partition of W<=3 (quick) / W<=4 (thorough) x every arrival order '
          'with <=2 duplicated deliveries x every overdue mask x thresholds {0,1,2,W} is enumerated completely; every partition of W=4 (quick) / W=5 '
          '(thorough), selected and seeded shapes up to W=6 / 7 with every arrival order (<=2 duplicates; <=1 for most 6- and 7-event shapes) under 4..8 '
-         '(threshold, overdue mask) combinations. random / response / concurrent: seeded W=12 cases with <=3 duplicates. distinct_nontrivial = distinct '
+         '(threshold, overdue mask) combinations. random / response / concurrent: seeded W=12 cases with <=3 duplicates; in half of the random cases and in '
+         'every continuous-feed case some documents are in a fresh channel whose cache is created in the middle of the case (by an explicit first request '
+         'or by the continuous feed itself), so that late arrivals fall below an active cache\'s validFrom. distinct_nontrivial = distinct '
          '(shape, threshold, mask, duplicate bound) enumerations (perms) or distinct delivery histories (other parts) in which a sequence was skipped '
          'and/or arrived late',
  'parts': [{'name': 'perms', 'pkg': 'db', 'run': '^TestVerif_C08_Perms$', 'timeout_q': 600, 'timeout_t': 3000},
@@ -22,7 +24,11 @@ CHECK = {'level': 'exploration',
                   'response.cases': 375, 'response.changes_requests': 11754, 'response.responses_with_low_sequence': 2235,
                   'response.boundary_requests_at_late_arrival': 1437, 'response.late_arrivals_received_by_clients': 2000,
                   'concurrent.cases': 62, 'concurrent.late_arrivals_forwarded': 100, 'concurrent.requests_inside_late_forward_window': 100,
-                  'concurrent.changes_requests': 1000},
+                  'concurrent.changes_requests': 400,
+                  'random.late_arrivals_below_valid_from_of_active_cache': 224,
+                  'response.continuous_feeds': 125, 'response.continuous_feeds_started_from_low_token': 90,
+                  'response.continuous_feeds_creating_the_channel_cache': 95, 'response.continuous_late_arrivals_after_feed_start': 115,
+                  'response.continuous_late_arrivals_below_cache_valid_from': 68},
  'race_files': ['db/change_cache.go', 'db/skipped_sequence.go', 'db/channel_cache.go', 'db/channel_cache_single.go', 'db/changes.go'],
  'race_state': ['nextSequence', 'pendingLogs', 'receivedSeqs', 'skippedSeqs', 'highCacheSequence', 'internalStats', 'initialSequence', 'logs', 'lateLogs',
                 'lastLateSequence', 'validFrom', 'cachedDocIDs', 'options'],
@@ -34,8 +40,13 @@ CHECK = {'level': 'exploration',
                  'during a run; abandoning skipped sequences after CacheSkippedSeqMaxWait is not exercised',
                  'concurrent part: all deliveries of one DocChanged document go to one feeder goroutine (one key = one vbucket = one DCP worker); the '
                  'recorder parks the feed goroutine at the forwarding boundary of a late arrival until a racing changes request has run inside the window',
-                 'changes requests are one-shot requests without user (admin) through DatabaseCollectionWithUser.MultiChangesFeed; continuous / longpoll '
-                 'feeds and their late-sequence feeds are C01 territory']}
+                 'changes requests are admin requests (no user) through DatabaseCollectionWithUser.MultiChangesFeed: one-shot clients, and one continuous '
+                 'feed (Continuous+Wait) per case started from a token of a one-shot client on channel *; longpoll, BLIP subChanges and user-filtered feeds '
+                 'are not exercised here',
+                 'continuous-feed oracle: quiescence is a state predicate (NumPullReplCaughtUp gauge, caught-up announcement after the notification, '
+                 'unchanged notification counter, 3 identical inspections); the broadcast ticker is set to 1 ms through the CacheOptions knobs; documents '
+                 'exist only in the caches (synthetic feed), so channel backfill queries return nothing and only forwards made after the feed first caught up '
+                 'are required']}
 
 META = {'technique': 'runtime monitoring: state-machine invariants of the real changeCache read under its own lock after every delivered feed event and compared '
               'with an arrival model; recording decorator around the real channel cache (forward counts, late flag, late log, still-skipped-when-forwarded); '
@@ -50,8 +61,13 @@ META = {'technique': 'runtime monitoring: state-machine invariants of the real c
                'end state next=W+1 with nothing pending or skipped. On a real database one-shot changes clients resume from the tokens they were handed; '
                'every entry must carry low = oldest skipped-1, and the token\'s safe sequence may never pass a document change the client has not received '
                '(checked after every event, at the forwarding boundary of every late arrival, and for readers racing 4 feeder goroutines under -race). '
+               'A continuous feed per case is resumed from a low::high token while sequences are skipped - mostly on a channel whose cache that feed creates - '
+               'and every change forwarded afterwards (in order or as late arrival, also below the cache\'s validFrom) must have been sent once the feed is '
+               'quiescent again. '
                'Exploration, exhaustive only in the stated small scope: held on the executions produced.',
  'level_note': 'Trusted: the arrival model and client model in the harness (a few hundred lines), the recorder decorator, rosmar. Overdue is simulated by an old '
                'TimeReceived, so the timer-driven paths (InsertPendingEntries, abandoning skipped sequences) are not exercised; continuous feeds / late-sequence '
-               'feeds, channel-cache eviction and the REST rendering of last_seq are outside this check. Windows of the database-level parts start above '
+               'feeds with users / revocations, longpoll, channel-cache eviction and the REST rendering of last_seq are outside this check. A fixed probe records (as a '
+               'note, not a violation, unless VERIF_C08_STALE_LOW_PROBE=violation) that a continuous feed resumed from a token older than a late arrival never '
+               'sends that late arrival. Windows of the database-level parts start above '
                'absolute sequence 1; the first-sequence case is a separate fixed probe.'}
